@@ -269,6 +269,8 @@ def run_property(mod, prop, tier, seed, t0, only=None):
     n_known = sum(1 for o in refuted if known_match(strip_path(o["name"]), o.get("inputs")))
     undecided = bool(unknown or oos_units)
     level = "proof" if not undecided and not checker_errors else "exploration"
+    if level == "proof" and getattr(mod, "LEVEL", None):
+        level = mod.LEVEL
     by_backend = {}
     for o in real_obs:
         by_backend[o.get("backend", "?")] = by_backend.get(o.get("backend", "?"), 0) + 1
@@ -297,6 +299,7 @@ def run_property(mod, prop, tier, seed, t0, only=None):
         "rule": "one obligation per contract clause x feasible path of the real function's AST; distinct = distinct clause names; "
                 "native evaluations are inputs of the bounded stand-in",
         "explanation": getattr(mod, "EXPLANATION", ""),
+        "states": paths, "transitions": len(real_obs), "traces_validated_against_impl": bounded_evals + witness_checked,
         "known_findings": known_lines,
     }
     ev = {"property_id": prop, "tier": tier, "seed": seed, "level": level, "coverage": cov,
